@@ -1,6 +1,7 @@
 """C11 — unimock wiring: named mock API, argument order, un-mocked calls reach the real function."""
 from ..common import Report
 from ..corpus import load, load_repo_tests
+from ..crossgen import load_cross
 from ..deleg import strip
 from ..wrules import (FnModView, TraitView, trait_methods, impl_methods, impls_of, in_macro, last_seg, callee_of, UNIMOCK_ADT)
 
@@ -87,6 +88,7 @@ def run(tier):
     configs = ["unimock_test"] if tier == "quick" else ["unimock_test", "unimock"]
     programs = 0
     loaded = [(cfg, load(rep, "pos", cfg)) for cfg in configs]
+    loaded += [(cfg, load_cross(rep, cfg, tier)) for cfg in configs]
     if tier == "thorough":
         loaded.append(("unimock_test", load_repo_tests(rep)))
     for cfg, ld in loaded:
